@@ -18,7 +18,9 @@ RULE = (
     "raised in B at a drawn (callback kind in check_market_book / process_market_book / process_orders / "
     "process_new_market / a middleware call, invocation index); A's ledger and received update sequence must equal the "
     "no-fault run, every strategy gets every update once, middleware runs before strategies. (iii) direct dispatch of "
-    "raw-data, sports-data and custom events on a live Flumine with a raising strategy. Non-trivial: B placed >= 1 "
+    "raw-data, sports-data and custom events on a live Flumine with a raising strategy. (i-b) event groups: A on one "
+    "market, B on that market and a shorter sibling recording of the same event (event_processing); A alone vs {A,B} / "
+    "{B,A}. Non-trivial: B placed >= 1 "
     "order on a runner where A has an order that received a passive fill, or a fault that actually fired."
 )
 ASSUMPTIONS = [
@@ -246,6 +248,79 @@ def check(c):
     return nontrivial, classes
 
 
+# ---- (i-b) event groups: A on one market, B on that market and on a sibling of the same event ----------------
+
+
+@st.composite
+def eg_case(draw, tier="quick"):
+    """two markets of one event processed as an event group (event_processing): A subscribes to market 0 only, B to
+    both; the sibling's recording is short and ends (with or without a closure) while market 0 still runs - typically
+    while a request of A is waiting for its latency.  A's ledger must not depend on B or on the sibling."""
+    specs = []
+    for mi in range(2):
+        spec = world.default_market(mi, 2, event=0, bsp_market=False)
+        spec["start_pt"] = world.BASE_PT + mi * draw(st.sampled_from([1, 7, 500, 2500]))
+        specs.append(spec)
+    n0 = draw(st.integers(5, 12 if tier == "quick" else 24))
+    feats0 = {"remove": 0, "suspend": 1, "inplay": 1, "books": 2, "trades": 5, "max_dt_ms": 5000}
+    steps0, states0 = draw(gen.timeline(specs[0], n0, feats0))
+    specs[0]["steps"] = steps0
+    n1 = draw(st.integers(1, 4))
+    feats1 = {"remove": 0, "suspend": 0, "inplay": 0, "books": 2, "trades": 3, "max_dt_ms": 5000, "close": draw(st.booleans())}
+    steps1, states1 = draw(gen.timeline(specs[1], n1, feats1))
+    specs[1]["steps"] = steps1
+    kw = dict(kinds=("LIMIT",), sp=False, sizes="level", runners=[0, 0, 1])
+    a = draw(gen.script(specs[0], states0, mi=0, max_entries=6, max_ops=3, place_kw=kw, follow_weight=2))
+    b = draw(gen.script(specs[0], states0, mi=0, max_entries=3, max_ops=2, place_kw=kw)) if draw(st.booleans()) else []
+    b += draw(gen.script(specs[1], states1, mi=1, max_entries=3, max_ops=2, place_kw=kw))
+    return {"eg": True, "markets": specs, "a": a, "b": b, "own_client": draw(st.booleans()),
+            "config": draw(st.sampled_from([{}, {}, {"place_latency": 1.2, "cancel_latency": 1.2, "replace_latency": 1.2, "update_latency": 1.2}]))}
+
+
+def run_eg(c, names):
+    strategies = []
+    for n in names:
+        if n == "A":
+            strategies.append(gen.strategy_spec("A", client=0, script=copy.deepcopy(c["a"]), markets=[0]))
+        else:
+            strategies.append(gen.strategy_spec("B", client=1 if c["own_client"] else 0, script=copy.deepcopy(c["b"]), markets=[0, 1]))
+    sc = {"markets": copy.deepcopy(c["markets"]), "strategies": strategies, "event_processing": True,
+          "clients": [{"min_bet_validation": False}, {"min_bet_validation": False}],
+          "config": dict(c.get("config") or {}, raise_errors=False)}
+    with simlab.lab(sc, snapshots=False) as lb:
+        lb.run()
+        if lb.error is not None:
+            raise crash_violation(lb.error, c, "run-aborted[%s,event-group]" % "+".join(names))
+        seq = [(r["market"], r["now"], r["cb"]) for r in lb.log if r["strategy"] == "A" and r["cb"] in ("check_market_book", "process_closed_market")]
+        return simlab.ledger(lb, "A"), seq, ("B" in names and bool(simlab.ledger(lb, "B")["orders"]))
+
+
+def check_eg(c):
+    if len(c.get("markets", ())) < 2:
+        return False, {"minimised-away"}
+    base, seq0, _ = run_eg(c, ["A"])
+    nontrivial = False
+    classes = {"event-group"}
+    for names in (["A", "B"], ["B", "A"]):
+        led, seq, b_traded = run_eg(c, names)
+        if seq != seq0:
+            raise Violation("update-sequence-differs", ("+".join(names), "event-group"),
+                            "A (market 0 only) received %d updates alone and %d when B also follows the sibling market" % (len(seq0), len(seq)), c)
+        d = diff(base, led)
+        if d:
+            raise Violation("ledger-depends-on-co-running-strategies", ("+".join(names), "event-group"),
+                            "A alone vs %s (B also on the sibling market of the event): %s" % (names, d), c)
+        if base["orders"]:
+            nontrivial = True
+            if b_traded:
+                classes.add("B-traded")
+    return nontrivial, classes
+
+
+def sub_eg(col, budget, seed, tier, shard, nshards):
+    run_given(col, eg_case(tier), check_eg, budget, seed, tier, "event_group")
+
+
 # ---- (iii) direct dispatch: raw data, sports data, custom events -------------------------------
 
 
@@ -367,11 +442,13 @@ def sub_dispatch(col, budget, seed, tier, shard, nshards):
 def subchecks(tier):
     q = tier == "quick"
     return [SubCheck("runs", sub_runs, 1600 if q else 40000), SubCheck("resting", sub_resting, 1200 if q else 40000),
-            SubCheck("dispatch", sub_dispatch, 160 if q else 2000)]
+            SubCheck("dispatch", sub_dispatch, 160 if q else 2000), SubCheck("event_group", sub_eg, 500 if q else 20000)]
 
 
 def replay(c, sub=None):
     if "kind" in c and "scripts" not in c:
         check_dispatch(c)
+    elif c.get("eg"):
+        check_eg(c)
     else:
         check(c)
